@@ -104,10 +104,25 @@ def replay(prop, payload):
     wd = workdir(prop + "_replay")
     cs = os.path.join(wd, "case.json")
     with open(cs, "w") as f:
-        f.write(json.dumps(payload["case"]) + "\n")
+        f.write(json.dumps(payload.get("case")) + "\n")
+    kind = payload.get("kind", "ipm")
     tr = os.path.join(wd, "replay.ndjson")
-    run_vh(["ipm-replay", "--case", cs, "--out", tr])
-    v = validate_family(res, prop, tr, cs, "replay", nshards=1)
+    if kind == "ipm":
+        run_vh(["ipm-replay", "--case", cs, "--out", tr])
+        v = validate_family(res, prop, tr, cs, "replay", nshards=1)
+    elif kind == "budget":
+        run_vh(["budget-replay", "--case", cs, "--out", tr])
+        v = validate_simple(res, prop, "Budget.tla", "Budget.cfg", tr, cs, "replay", "budget", nshards=1,
+                            boundary=lambda e: e.get("ev") in ("Long", "Panic"))
+    elif kind == "print":
+        run_vh(["print-replay", "--case", cs, "--out", tr, "--dir", wd])
+        v = validate_simple(res, prop, "Print.tla", "Print_trace.cfg", tr, cs, "replay", "print", nshards=1,
+                            env={"STRICT_LAST_ROW": "1"})
+    else:
+        # aggregate verdicts (distribution, dimension table) are replayed by re-running the check
+        r2 = {"C06": c06, "C04": c04}[prop](payload.get("tier", "quick"), payload.get("seed", 1))
+        res.violations = r2.violations
+        return res
     res.coverage = {"states": max(1, v["states"]), "transitions": max(1, v["transitions"]),
                     "traces_validated_against_impl": 1, "samples": [payload.get("event")]}
     return res
@@ -118,6 +133,8 @@ def c01(tier, seed):
         ("feas", "feasible", 250, 6000, 8, []),
         ("bad", "badscale", 150, 3000, 8, []),
         ("big", "feasible", 40, 1500, 30, []),
+        ("infb", "infb", 150, 3000, 8, []),
+        ("objscale", "objscale", 150, 3000, 8, []),
     ])
 
 
@@ -133,11 +150,195 @@ def c03(tier, seed):
     return ipm_generic("C03", tier, seed, [
         ("mixed", "mixed", 350, 8000, 8, []),
         ("bad", "badscale", 150, 4000, 10, []),
+        ("infb", "infb", 100, 2000, 8, []),
+        ("objscale", "objscale", 100, 2000, 8, []),
     ])
+
+
+def validate_simple(res, prop, spec, cfg, tr, cs, name, kind, boundary=None, env=None, nshards=8, keyfn=None):
+    """generic sharded trace validation for independent-event traces; rejections become violations"""
+    env = dict(env or {})
+    env.setdefault("PROP", prop)
+    v = validate_trace(spec, cfg, tr, nshards=nshards, env_extra=env,
+                       boundary=boundary or (lambda e: True))
+    if not v["ok"]:
+        lines = read_ndjson(tr)
+        cases = {c["run"]: c for c in read_ndjson(cs)} if cs and os.path.exists(cs) else {}
+        for rj in v["rejects"]:
+            ev = rj["event"] or {}
+            run = ev.get("run")
+            if run is None:
+                run = run_of_line(lines, rj["line"])
+            text = f"run={run} rejected at {ev.get('ev')} (trace line {rj['line']})"
+            key = keyfn(ev) if keyfn else None
+            if ev.get("ev") == "Panic":
+                key = key or ("panic:" + str(ev.get("msg", ""))[:60].replace(" ", "_"))
+                text += " panic: " + str(ev.get("msg"))[:200]
+            res.violation(f"{name}-s{res.seed}-run{run}",
+                          {"kind": kind, "prop": prop, "case": cases.get(run), "event": ev, "prev": rj["prev"]},
+                          text, key=key)
+    return v
+
+
+def add_cov(res, v, runs, samples, label):
+    c = res.coverage
+    c["states"] = c.get("states", 0) + v["states"]
+    c["transitions"] = c.get("transitions", 0) + v["transitions"]
+    c["traces_validated_against_impl"] = c.get("traces_validated_against_impl", 0) + runs
+    c["trace_events"] = c.get("trace_events", 0) + v["events"]
+    c.setdefault("samples", [])
+    c["samples"] += samples[:2]
+    c.setdefault("parts", {})[label] = {"events": v["events"], "runs": runs}
 
 
 def c07(tier, seed):
-    return ipm_generic("C07", tier, seed, [
-        ("mixed", "mixed", 300, 8000, 8, []),
-        ("bad", "badscale", 100, 3000, 10, []),
+    res = ipm_generic("C07", tier, seed, [
+        ("mixed", "mixed", 300, 8000, 8, ["--detail", "64"]),
+        ("bad", "badscale", 100, 3000, 10, ["--detail", "64"]),
+        ("extreme", "extreme", 150, 3000, 8, ["--detail", "64"]),
     ])
+    # budget independence: two-run refinement (Budget.tla)
+    wd = os.path.join(WORK, "C07")
+    tr, cs, mt = [os.path.join(wd, "budget" + x) for x in (".ndjson", ".cases.ndjson", ".meta.json")]
+    cnt = 96 if tier == "quick" else 1500
+    run_vh(["budget", "--seed", seed, "--count", cnt, "--kmax", 12 if tier == "quick" else 40,
+            "--out", tr, "--cases", cs, "--meta", mt])
+    meta = json.load(open(mt))
+    v = validate_simple(res, "C07", "Budget.tla", "Budget.cfg", tr, cs, "budget", "budget",
+                        boundary=lambda e: e.get("ev") in ("Long", "Panic"))
+    add_cov(res, v, meta["short_runs"], [l for l in read_ndjson(tr)[:3]], "budget")
+    res.coverage["budget_short_runs"] = meta["short_runs"]
+    return res
+
+
+def binom_tail_threshold(n, p=0.005, alpha=1e-9):
+    """smallest k with P(Binomial(n,p) >= k) <= alpha (pmf by recurrence, no big integers)"""
+    pmf = (1 - p) ** n
+    tail = 1.0
+    k = 0
+    while k <= n:
+        if tail <= alpha:
+            return k
+        tail -= pmf
+        pmf = pmf * (n - k) / (k + 1) * p / (1 - p)
+        k += 1
+    return n + 1
+
+
+def c06(tier, seed):
+    res = Result("C06", tier, seed, "exploration")
+    mc = mc_ipm()
+    wd = workdir("C06")
+    total = 2000 if tier == "quick" else 20000
+    # reference seeds are always included besides VERIF_SEED
+    parts = [(101, total // 4), (202, total // 4), (seed * 7919 + 13, total - 2 * (total // 4))]
+    summary_all = os.path.join(wd, "summary.ndjson")
+    events = 0
+    samples = []
+    nruns = 0
+    distinct = set()
+    with open(summary_all, "w") as sf:
+        for k, (sd, cnt) in enumerate(parts):
+            tr, cs, sm = [os.path.join(wd, f"g{k}" + x) for x in (".ndjson", ".cases.ndjson", ".summary.ndjson")]
+            run_vh(["dist", "--seed", sd, "--count", cnt, "--out", tr, "--cases", cs, "--summary", sm])
+            v = validate_family(res, "C06", tr, cs, f"g{k}")
+            events += v["events"]
+            for e in read_ndjson(sm):
+                e["run"] = nruns
+                nruns += 1
+                sf.write(json.dumps(e) + "\n")
+                if e["iterations"] >= 2:
+                    distinct.add((e["iterations"], e["status"], e["run"]))
+            samples += read_ndjson(sm)[:2]
+    kfail = binom_tail_threshold(nruns)
+    env = {"KFAIL": str(kfail), "ENVELOPE_ALL": "30", "ENVELOPE_SYM": "20"}
+    r = _dist_run(summary_all, env)
+    res.coverage = {"evaluations": nruns, "distinct_nontrivial": len(distinct),
+                    "rule": "family G (planted strictly feasible primal-dual pair, m >= 2n+2, n <= 60, magnitudes <= 1e3, "
+                            "zero/NN/SOC/exp/power/genpower cones); every run validated against Trace_IPM (PROP=C06: sigma=(1-alpha)^3, "
+                            "first-iteration damping) and counted by Dist.tla; non-trivial = at least 2 iterations",
+                    "samples": samples, "trace_events": events, "kfail_threshold": kfail,
+                    "dist": r.get("dist"), "mc_states": mc["states"], "envelopes": env}
+    if not r["ok"]:
+        res.violation(f"dist-s{seed}", {"kind": "dist", "dist": r.get("dist"), "env": env, "seed": seed, "tier": tier},
+                      f"distributional clause failed: [n, nonSolved, overAll, overSym, nsym, maxit] = {r.get('dist')} (kfail={kfail})")
+    return res
+
+
+def _dist_run(summary, env):
+    import subprocess, re, shutil
+    md = os.path.join(WORK, "tlc_dist")
+    shutil.rmtree(md, ignore_errors=True)
+    cmd = ["java", "-Xss1g", "-cp", TLA_CP, "tlc2.TLC", "-workers", "1", "-metadir", md, "-cleanup",
+           "-noGenerateSpecTE", "-config", "Dist.cfg", "Dist.tla"]
+    e = dict(os.environ)
+    e.update(env)
+    e["TRACE"] = summary
+    p = subprocess.run(cmd, cwd=SPEC, stdout=subprocess.PIPE, stderr=subprocess.STDOUT, text=True, env=e, timeout=1800)
+    shutil.rmtree(md, ignore_errors=True)
+    m = re.search(r'<<"DIST", (\d+), (\d+), (\d+), (\d+), (\d+), (\d+)>>', p.stdout)
+    ok = "Model checking completed. No error has been found." in p.stdout
+    if not m:
+        sys.stdout.write(p.stdout[-2000:])
+        raise ToolError("Dist.tla produced no verdict")
+    return {"ok": ok, "dist": [int(x) for x in m.groups()]}
+
+
+def c04(tier, seed):
+    res = ipm_generic("C04", tier, seed, [])
+    wd = os.path.join(WORK, "C04")
+    tr, cs, dm, mt = [os.path.join(wd, "shapes" + x) for x in (".ndjson", ".cases.ndjson", ".dims.ndjson", ".meta.json")]
+    sample = 1500 if tier == "quick" else 0
+    p = run_vh(["shapes", "--seed", seed, "--sample", sample, "--out", tr, "--cases", cs, "--dims", dm, "--meta", mt,
+                "--maxlen", 3, "--maxm", 5 if tier == "quick" else 6], check=False, timeout=6 * 3600)
+    if p.returncode == 3:
+        hang = json.load(open(tr + ".hang.json"))
+        res.violation(f"hang-s{seed}", {"kind": "ipm", "prop": "C04", "case": hang, "event": {"ev": "Hang"}},
+                      "solve did not return within the watchdog limit")
+        return res
+    if p.returncode != 0:
+        sys.stdout.write(p.stderr[-2000:])
+        raise ToolError("shapes recorder failed")
+    meta = json.load(open(mt))
+    v = validate_family(res, "C04", tr, cs, "shapes")
+    add_cov(res, v, meta["runs"], [l for l in read_ndjson(tr)[:40] if l["ev"] in ("Begin", "Done")], "shapes")
+    res.coverage["evaluations"] = meta["runs"]
+    res.coverage["distinct_nontrivial"] = meta["distinct_nontrivial"]
+    res.coverage["status_histogram"] = meta["status_hist"]
+    res.coverage["exhaustive"] = (sample == 0)
+    res.coverage["rule"] = ("degenerate shapes: every cone list of <= 3 cones over {Zero(0..2),NN(0..2),SOC(1..3),Exp,Pow,GenPow,PSD(1..2)} "
+                            "with total size <= 5 (6 thorough), n in 1..2, six data variants (all-zero, small ints, duplicate rows, "
+                            "1e+-12 magnitudes, infeasible rhs, unbounded), max_iter in {0,1,2,200}, time_limit in {inf,0,1e-9}; "
+                            "quick samples 1500 of them by seed; distinct by (cones,n,variant,max_iter)")
+    # construction guard
+    v2 = validate_simple(res, "C04", "Construct.tla", "Construct.cfg", dm, None, "dims", "dims", nshards=1,
+                         keyfn=lambda e: None)
+    add_cov(res, v2, meta["dim_cases"], read_ndjson(dm)[:2], "dimension_guard")
+    # time limit reached mid-run through an injected sleep
+    tr3, cs3, mt3 = [os.path.join(wd, "tl" + x) for x in (".ndjson", ".cases.ndjson", ".meta.json")]
+    run_vh(["timelimit", "--seed", seed, "--count", 30 if tier == "quick" else 300, "--out", tr3, "--cases", cs3, "--meta", mt3])
+    m3 = json.load(open(mt3))
+    v3 = validate_family(res, "C04", tr3, cs3, "timelimit")
+    add_cov(res, v3, m3["runs"], [], "timelimit")
+    res.coverage["timelimit_status_histogram"] = m3["status_hist"]
+    if m3["status_hist"].get("MaxTime", 0) == 0:
+        raise ToolError("vacuity guard: no MaxTime verdict produced by the sleep-injection corpus")
+    return res
+
+
+def c20(tier, seed):
+    res = ipm_generic("C20", tier, seed, [
+        ("mixedp", "mixed", 200, 4000, 8, ["--print", "1"]),
+        ("badp", "badscale", 100, 2000, 8, ["--print", "1"]),
+    ])
+    mcp = run_mc("Print.tla", "MC_Print.cfg", workers=2, timeout=300, name="MC_Print", coverage=False)
+    wd = os.path.join(WORK, "C20")
+    for k, fam in enumerate(["mixed", "badscale"]):
+        tr, cs = [os.path.join(wd, f"print{k}" + x) for x in (".ndjson", ".cases.ndjson")]
+        cnt = (120 if tier == "quick" else 3000) // (k + 1)
+        run_vh(["print", "--seed", seed * 10 + k, "--count", cnt, "--family", fam, "--out", tr, "--cases", cs, "--dir", wd])
+        v = validate_simple(res, "C20", "Print.tla", "Print_trace.cfg", tr, cs, f"print{k}", "print",
+                            env={"STRICT_LAST_ROW": "1"}, nshards=4)
+        add_cov(res, v, cnt, [{k2: v2 for k2, v2 in read_ndjson(tr)[0].items() if k2 not in ("last",)}], f"print_{fam}")
+    res.coverage["mc_print_states"] = mcp["states"]
+    return res
